@@ -51,7 +51,7 @@ class Dcmi(object):
                                               entity_instance_start=0)
             # convert the returned raw data in a list of SDR record IDs
             ids = [msb << 8 | lsb for (lsb, msb) in
-                   zip(rsp.record_ids, rsp.record_ids[1:])[::2]]
+                   list(zip(rsp.record_ids, rsp.record_ids[1:]))[::2]]
             record_ids.extend(ids)
 
         return record_ids
